@@ -183,7 +183,9 @@ Section WF.
   (* ---------------------------------------------------------------- clause 4: handoffs sit exactly
      on the edges that cross subgraphs: an edge never joins two operators of different
      subgraphs directly, never joins two handoffs, and a handoff has one producer, at most one
-     consumer, and they are in different subgraphs (no handoff inside a subgraph). *)
+     consumer, and they are in different subgraphs (no handoff inside a subgraph) -- except a
+     handoff that carries a delay mark: a double-buffered tick/loop back edge may return into
+     the subgraph it left (user-written `u = union() -> optional() -> defer_tick() -> u`). *)
   Definition edge_ok_b (e : edge) : bool :=
     if is_op (e_src e) && is_op (e_dst e) then optN_eqb (sg_of (e_src e)) (sg_of (e_dst e))
     else negb (is_hoff p (e_src e) && is_hoff p (e_dst e)).
@@ -192,7 +194,9 @@ Section WF.
     | KHoff _ =>
         match preds_pipe p (n_id n), succs p (n_id n) with
         | [a], [] => is_op a
-        | [a], [c] => is_op a && is_op c && negb (optN_eqb (sg_of a) (sg_of c))
+        | [a], [c] => is_op a && is_op c &&
+                      (negb (optN_eqb (sg_of a) (sg_of c)) ||
+                       match n_delay n with Some _ => true | None => false end)
         | _, _ => false
         end
     | _ => true
@@ -206,7 +210,8 @@ Section WF.
     forall k, n_kind n = KHoff k ->
       exists a, preds_pipe p (n_id n) = [a] /\ is_op a = true /\
         (succs p (n_id n) = [] \/
-         exists c, succs p (n_id n) = [c] /\ is_op c = true /\ sg_of a <> sg_of c).
+         exists c, succs p (n_id n) = [c] /\ is_op c = true /\
+                   (sg_of a <> sg_of c \/ n_delay n <> None)).
   Definition W4 : Prop :=
     (forall e, In e (g_edges p) -> edge_ok e) /\ (forall n, In n (g_nodes p) -> hoff_ok n).
 
